@@ -135,14 +135,10 @@ Proof.
     destruct x; cbn [bind]; try reflexivity; try discriminate Px.
     rewrite (Fx (cpath sep pp (dec i)) Nx Px). reflexivity. }
   cbn [flat_keys leaf_paths].
-  destruct d as [|e0 d0].
-  - (* no named keys: the list part *)
-    destruct a as [l|].
-    + cbn [arr_of] in Ha. rewrite (Arr l 0 Ha HNa HPa). reflexivity.
-    + reflexivity.
-  - (* named keys: the node is a dictionary, its list part is empty *)
-    rewrite (Dict (e0 :: d0) Hd HNd HPd).
-    destruct a as [[|e1 l1]|]; try discriminate HPx; cbn [app]; rewrite ?app_nil_r; reflexivity.
+  rewrite (Dict d Hd HNd HPd). cbn [bind].
+  destruct a as [l|].
+  - cbn [arr_of] in Ha. rewrite (Arr l 0 Ha HNa HPa). reflexivity.
+  - cbn [bind]. reflexivity.
 Qed.
 
 (** * sorting and de-duplication keep membership *)
